@@ -574,7 +574,15 @@ class Factory:
                     for f in problem_features
                 )
                 if optimality_guarantee is not None:
-                    assert issubclass(EngineClass, OneshotPlannerMixin)
+                    assert issubclass(
+                        EngineClass,
+                        (
+                            OneshotPlannerMixin,
+                            ReplannerMixin,
+                            PortfolioSelectorMixin,
+                            PlanRepairerMixin,
+                        ),
+                    )
                     x.append(str(EngineClass.satisfies(optimality_guarantee)))
                 elif anytime_guarantee is not None:
                     assert issubclass(EngineClass, AnytimePlannerMixin)
@@ -731,7 +739,7 @@ class Factory:
             if operation_mode == OperationMode.REPLANNER:
                 assert problem is not None
                 if (
-                    problem.kind.has_quality_metrics()
+                    not problem.kind.has_quality_metrics()
                     and optimality_guarantee == OptimalityGuarantee.SOLVED_OPTIMALLY
                 ):
                     msg = f"The problem has no quality metrics but the engine is required to be optimal!"
